@@ -297,6 +297,15 @@ def host_reexport_cases():
                     ('import { ping } from net;\nimport { g } from b;\nfn main() { spawn g(); spawn ping("a", 1.0); }\n', "REJECT")):
         cases.append((main, {"b": b}))
         want.append(w)
+    # braced lists mixing kinds: every entry has its own kind (`type` applies to the entry it prefixes only); every order
+    geo = 'pub type Point = { x: int, y: int };\npub type Size = int;\npub fn scale(p: Point, k: int) -> int { p.x * k }\npub let unit = 1;\nfn hidden() { }\nfn main() { }\n'
+    use = 'fn main() { let p: Point = new { x: 2, y: 3 }; println(scale(p, unit)); }\n'
+    for items, w in ((["type Point", "scale", "unit"], "ACCEPT"), (["scale", "type Point", "unit"], "ACCEPT"), (["scale", "unit", "type Point"], "ACCEPT"),
+                     (["type Point", "type Size", "scale", "unit"], "ACCEPT"), (["type Point", "scale", "type Size", "unit"], "ACCEPT"),
+                     (["type Point", "Size", "scale", "unit"], "REJECT"), (["type Point", "scale", "unit", "type scale"], "REJECT"),
+                     (["type Point", "scale", "unit", "hidden"], "REJECT"), (["type Point", "type unit", "scale"], "REJECT")):
+        cases.append(("import { " + ", ".join(items) + " } from b;\n" + use, {"b": geo}))
+        want.append(w)
     return cases, want
 
 
